@@ -206,6 +206,8 @@ type WireGen struct {
 	IntSeq    []string
 	intPos    int
 	EnumForce string
+	// MemberForce, when set, is used for member / element / field / pivot arguments
+	MemberForce string
 }
 
 // SmallInts is the grid the sweep enumerates for index-like arguments.
@@ -304,6 +306,12 @@ func (g *WireGen) val(dst string) string {
 			return kw // exactly as spelled in the source (stored elements may be named like that)
 		}
 		return g.randCase(kw)
+	}
+	switch strings.ToLower(dst) {
+	case "field", "fields", "member", "elem", "elems", "members", "pivot":
+		if g.MemberForce != "" {
+			return g.MemberForce
+		}
 	}
 	switch strings.ToLower(dst) {
 	case "field", "fields":
